@@ -6,7 +6,7 @@ CHECKS = {
  'C03': ("5/C03", "LAO* under scheduler-chosen initial-state, action and successor orders (incl. sorted/reversed/rotated orders no small seed set yields); per-iteration upper-bound invariant via the listener; result compared with an independent exact solver and exact policy evaluation",
          "reference value iteration + linear solves on harness-owned tables; workloads <= 7 states; tolerance 1e-6 relative"),
  'C04': ("5/C04", "LRTDP trial histories chosen by the scheduler (rare branches, then cooperative so every trial ends); upper-bound, label-stability and sampled-successor invariants at every listener event; eps*N bound against an exact solver; Bonet-Geffner trial bound as bounded liveness",
-         "eps*N clauses applied only with monotone admissible heuristics (the theorem's hypothesis); proper MDPs <= 7 states"),
+         "eps*N clauses applied with every admissible heuristic (constant, zero, exact, exact+slack, per-state noisy slack); value monotonicity and the trial bound only with monotone ones; proper MDPs <= 7 states"),
  'C05': ("5/C05", "A*/BFS with scheduler-chosen tie-break floats and action permutations (monotone, reversed, random), four model representations; path validity, optimal cost = Dijkstra, min steps = BFS, None iff unreachable",
          "Dijkstra/BFS reference on the spec graph; integer costs compared exactly; graphs <= 8 states"),
  'C09': ("5/C09", "controller execution with the scheduler choosing every action, successor and observation (biased to low-probability actions); per-step conditional action probabilities vs a reference node filter; exact evaluation vs reference chain; BPI/gradient-ascent results and BPI's per-iteration values through the module-level evaluator seam",
